@@ -155,7 +155,7 @@ fn c06_read(ctx: &mut Ctx, recs: &[Rec], ser: Ser, container: &str, bytes: &[u8]
     ctx.rep.evaluations += 1;
     let size = bytes.len();
     let cap = |t: String| if t.len() > 80 { format!("{}...({} chars)", &t[..60], t.len()) } else { t };
-    let what = format!("{} record(s) {:?} as {} in {} ({} bytes, suffix {}{})", recs.len(), recs.iter().map(|r| (cap(r.header.clone()), cap(show(&r.bases)))).collect::<Vec<_>>(), ser.code(), container, bytes.len(), suffix, if gz { ".gz" } else { "" });
+    let what = format!("{} record(s) {:?} as {} in {} ({} bytes, suffix {}{})", recs.len(), recs.iter().take(6).map(|r| (cap(r.header.clone()), cap(show(&r.bases)))).collect::<Vec<_>>(), ser.code(), container, bytes.len(), suffix, if gz { ".gz" } else { "" });
     let fmt = match SeqFormat::get(&path) {
         Some(f) => f,
         None => return viol(ctx, "suffix-not-recognised", size, format!("SeqFormat::get({path:?}) = None"), argv),
@@ -189,7 +189,8 @@ fn c06_read(ctx: &mut Ctx, recs: &[Rec], ser: Ser, container: &str, bytes: &[u8]
         } else {
             "record-bases"
         };
-        return viol(ctx, key, size, format!("reading {what}: iterator returned {:?}", v.iter().map(|t| (t.0, t.1.clone(), show(&t.2))).collect::<Vec<_>>()), argv);
+        let first_bad = v.iter().zip(&exp).position(|(a, b)| a != b).unwrap_or(v.len().min(exp.len()));
+        return viol(ctx, key, size, format!("reading {what}: iterator returned {} records; first difference at record {}: got {:?}, expected {:?}", v.len(), first_bad, v.get(first_bad).map(|t| (t.0, cap(t.1.clone()), cap(show(&t.2)))), exp.get(first_bad).map(|t| (t.0, cap(t.1.clone()), cap(show(&t.2))))), argv);
     }
     let total: usize = recs.iter().map(|r| r.bases.len()).sum();
     if sc != recs.len() || tl != total {
@@ -372,6 +373,23 @@ pub fn c06(ctx: &mut Ctx) {
                     c06_read(ctx, &recs, ser, cont, &bytes, case_no, argv);
                     ctx.rep.count("files.long_records", 1);
                 }
+            }
+        }
+    }
+    // many records (beyond any plausible look-ahead or batch size inside a reader)
+    for nrec in [1025usize, 2049, 5000] {
+        for ser in [Ser::FastaLine, Ser::FastaWrap(3), Ser::Fastq] {
+            for cont in ["plain", "gz1-l6", "gz2-mid"] {
+                if !sh.mine() {
+                    continue;
+                }
+                let recs: Vec<Rec> = (0..nrec).map(|i| Rec { header: format!("r{} d", i), bases: long_bases(1 + i % 9, i) }).collect();
+                let (text, bounds) = serialise(&recs, ser);
+                let bytes = container_bytes(&text, &bounds, cont);
+                case_no += 1;
+                let argv = vec!["case".to_string(), "C06many".to_string(), nrec.to_string(), ser.code(), cont.to_string()];
+                c06_read(ctx, &recs, ser, cont, &bytes, case_no, argv);
+                ctx.rep.count("files.many_records", 1);
             }
         }
     }
@@ -661,8 +679,13 @@ pub fn c07_configs(ctx: &mut Ctx) {
     }
     big.push(((0..40).map(|i| fill(b"AC", 5 + i % 7)).collect(), 3));
     big.push(((0..64).map(|_| b"AAAAAAAAAA".to_vec()).collect(), 4));
+    big.push(((0..3000usize).map(|i| long_bases(2 + i % 11, i)).collect(), 3));
     for (recs, k) in &big {
-        for &(threads, mem) in &[(1usize, 6.0f64), (4, 1e-7), (16, 2e-8), (8, 1e-9)] {
+        // ceilings are scaled to the input so that the chunk x partition grid stays in the hundreds of files
+        let many = recs.len() > 1000;
+        let cfg_many: [(usize, f64); 4] = [(1, 6.0), (4, 2e-6), (16, 5e-6), (3, 1e-6)];
+        let cfg_few: [(usize, f64); 4] = [(1, 6.0), (4, 1e-7), (16, 2e-8), (8, 1e-9)];
+        for &(threads, mem) in if many { &cfg_many } else { &cfg_few } {
             for (acgt, delete) in [(false, true), (true, false)] {
                 if !sh.mine() {
                     continue;
@@ -971,6 +994,7 @@ pub fn c08(ctx: &mut Ctx) {
             lf.extend(strings(b"ACGT", 1, 2).into_iter().take(6));
             lf
         }),
+        ("three-thousand", (0..3000usize).map(|i| long_bases(1 + i % 13, i)).collect()),
         ("empty-last", vec![b"ACG".to_vec(), b"".to_vec()]),
         ("only-empty", vec![b"".to_vec()]),
         ("all-N", vec![b"NNN".to_vec(), b"N".to_vec()]),
@@ -1042,6 +1066,14 @@ pub fn replay(ctx: &mut Ctx, args: &[String]) {
         "C06" => {
             let recs = list_from_code(&args[1]);
             let ser = Ser::parse(&args[2]);
+            let (text, bounds) = serialise(&recs, ser);
+            let bytes = container_bytes(&text, &bounds, &args[3]);
+            c06_read(ctx, &recs, ser, &args[3], &bytes, 0, vec![]);
+        }
+        "C06many" => {
+            let nrec: usize = args[1].parse().unwrap();
+            let ser = Ser::parse(&args[2]);
+            let recs: Vec<Rec> = (0..nrec).map(|i| Rec { header: format!("r{} d", i), bases: long_bases(1 + i % 9, i) }).collect();
             let (text, bounds) = serialise(&recs, ser);
             let bytes = container_bytes(&text, &bounds, &args[3]);
             c06_read(ctx, &recs, ser, &args[3], &bytes, 0, vec![]);
